@@ -421,3 +421,16 @@ T('C08-T-polygon-whole-turn-other-spelling', 'C08', (ROIPY, "not np.isclose(dthe
 W('C08-W-polygon-move-in-place', 'C08', 'C08.j', (ROIPY, "        self.vx = list(map(lambda x: x + xdelta, self.vx))\n        self.vy = list(map(lambda y: y + ydelta, self.vy))\n", "        self.vx[:] = list(map(lambda x: x + xdelta, self.vx))\n        self.vy[:] = list(map(lambda y: y + ydelta, self.vy))\n"))
 T('C08-T-polygon-move-comprehension', 'C08', (ROIPY, "        self.vx = list(map(lambda x: x + xdelta, self.vx))\n        self.vy = list(map(lambda y: y + ydelta, self.vy))\n", "        self.vx = [x + xdelta for x in self.vx]\n        self.vy = [y + ydelta for y in self.vy]\n"))
 T('C07-T-priority-none-default', 'C07', ('glue/core/hub.py', "        if not handler:\n            handler = subscriber.notify\n", "        if not handler:\n            handler = subscriber.notify\n        if priority is None:\n            priority = 10\n"))
+
+# ------------------------------------------------------------------ round-7 rules
+HCC = 'glue/core/hub_callback_container.py'
+T('C07-T-auto-remove-membership', 'C07', (HCC, "            if value[1] is method_instance or value[3] is method_instance:\n", "            if method_instance in (value[1], value[3]):\n"))
+T('C07-T-auto-remove-comprehension', 'C07', (HCC, "        remove = []\n        for key, value in self.callbacks.items():\n            if value[1] is method_instance or value[3] is method_instance:\n                remove.append(key)\n        for key in remove:\n            self.callbacks.pop(key)\n", "        self.callbacks = {key: value for key, value in self.callbacks.items()\n                          if value[1] is not method_instance and value[3] is not method_instance}\n"))
+W('C07-W-auto-remove-handler-only', 'C07', 'C07.f', (HCC, "            if value[1] is method_instance or value[3] is method_instance:\n", "            if value[1] is method_instance:\n"))
+FRB = 'glue/core/fixed_resolution_buffer.py'
+T('C16-T-dimensions-augassign', 'C16', (FRB, "        values_all.append(values)\n        dimensions_all.extend(dimensions)\n    # Unbroadcast arrays", "        values_all.append(values)\n        dimensions_all += dimensions\n    # Unbroadcast arrays"))
+W('C16-W-dimensions-after-loop', 'C16', 'C16.h', (FRB, "        values_all.append(values)\n        dimensions_all.extend(dimensions)\n    # Unbroadcast arrays", "        values_all.append(values)\n    dimensions_all.extend(dimensions)\n    # Unbroadcast arrays"))
+HIST = 'glue/viewers/histogram/state.py'
+T('C05-T-histogram-explicit-copy', 'C05', (HIST, "        scaled = unscaled.astype(float)\n", "        scaled = np.array(unscaled, dtype=float)\n"))
+W('C05-W-histogram-asarray', 'C05', 'C05.g', (HIST, "        scaled = unscaled.astype(float)\n", "        scaled = np.asarray(unscaled)\n"))
+T('C14-T-validate-group0', 'C14', (PARSE_PY, "        full_tag = match.string[slice(*match.span())]\n", "        full_tag = match.group(0)\n"))
